@@ -37,6 +37,137 @@ def nths(t):
 def struct_fields(v):
     return dict(v[2]) if v[0] == 'struct' else {}
 
+def check_parse_controls(ctx, f, R='T3'):
+    """The control list decoder (shared by C03 T3 and C19's envelope clause)."""
+    # ------------------------------------------------------------------ T3 parse_controls
+    P = hirq.Body(f, f.body('ldap3::controls_impl::parse_controls'))
+    ctx.analysed['bodies'].add(P.path)
+    pouts = absx.Interp(f, P, unroll=1).run()
+    seen = set()
+    for o in pouts:
+        pushes = [e for e in o.st.ev if e[0] == 'call' and e[1].endswith('Vec::<T, A>::push')]
+        if not pushes:
+            continue
+        ctl = pushes[0][2][1]
+        if not (ctl[0] == 'ctor' and ctl[1].endswith('Control') and len(ctl[2]) == 2 and ctl[2][1][0] == 'struct'):
+            ctx.fail(R + '.control-shape', 'push', loc(P.root), 'pushed value is not Control(type, RawControl{..})'); continue
+        known, raw = ctl[2]
+        rf = dict(raw[2])
+        ctype, crit, val = rf.get('ctype'), rf.get('crit'), rf.get('val')
+        def inner(t):
+            """ordinals read from the per-control component cursor (whose base is itself an element of the control list)"""
+            return sorted({x[3] for x in absx.leaves(t, lambda x: x[0] == 'nth') if absx.leaves(x[1], lambda y: y[0] in ('nth', 'elem'))})
+        okt = inner(ctype) == [0] and 'from_utf8' in calls_in(ctype) and 'expect_primitive' in calls_in(ctype)
+        def second_pc(pred):
+            return any(t and pred(a) for a, t in o.st.pc)
+        absent = absx.pc_variant(o.st.pc, lambda v: v[0] == 'nth' and v[3] == 1 and inner(v) == [1], 'None') is True
+        def id_is(a, n, name):
+            return a[0] == 'bin' and a[1] == 'Eq' and a[2][0] == 'field' and a[2][2] == 'id' and inner(a[2]) == [1] \
+                and (a[3] == ('lit', n) or a[3] == ('cast', ('ctor', 'Types::' + name, ()), 'u64'))
+        is_bool = second_pc(lambda a: id_is(a, 1, 'Boolean'))
+        is_octet = second_pc(lambda a: id_is(a, 4, 'OctetString'))
+        if absent:
+            case = 'absent'
+            ok = crit == ('lit', False) and val == ('ctor', 'None', ())
+        elif is_bool:
+            idx = absx.leaves(crit, lambda x: x[0] == 'index')
+            okc = crit[0] == 'not' and len(idx) == 1 and idx[0][2] == ('lit', 0) and inner(idx[0][1]) == [1] and crit[1] == ('bin', 'Eq', idx[0], ('lit', 0))
+            if val == ('ctor', 'None', ()):
+                case = 'boolean'
+                ok = okc and absx.pc_variant(o.st.pc, lambda v: v[0] == 'nth' and v[3] == 2, 'None') is True
+            else:
+                case = 'boolean+value'
+                ok = okc and val[0] == 'ctor' and val[1] == 'Some' and inner(val) == [2] and 'expect_primitive' in calls_in(val)
+        elif is_octet:
+            case = 'octet-string'
+            ok = crit == ('lit', False) and val[0] == 'ctor' and val[1] == 'Some' and inner(val) == [1] and 'expect_primitive' in calls_in(val)
+        else:
+            continue
+        seen.add(case)
+        ctx.add(R + '.control-type', case, loc(P.root), okt, 'controlType is not the UTF-8 content of child 0')
+        ctx.add(R + '.criticality-and-value', case, loc(P.root), ok, 'case %s: crit=%s val=%s' % (case, absx.fmt(crit)[:80], absx.fmt(val)[:80]))
+        gets = [x for x in absx.leaves(known, lambda x: x[0] == 'call' and x[1].endswith('HashMap::<K, V, S, A>::get'))]
+        okk = known[0] == 'call' and len(gets) == 1 and gets[0][2][1] == ctype and 'CONTROLS' in str(gets[0][2][0])
+        ctx.add(R + '.known-type-lookup', case, loc(P.root), okk, 'the recognised control type is not looked up in the OID table with this control\'s own type')
+    for need in ('absent', 'boolean', 'boolean+value', 'octet-string'):
+        ctx.add(R + '.coverage', need, loc(P.root), need in seen, 'no path of parse_controls for a second component that is ' + need)
+    # the OID table
+    init = [h for p, h in f.hir.items() if p.startswith('<ldap3::controls_impl::CONTROLS as core::ops::deref::Deref>::deref::__static_ref_initialize')]
+    init = anchors.one('CONTROLS initialiser', init)
+    got = {}
+    for n, c in walk(init['body']):
+        if n['k'] == 'MethodCall' and n['name'] == 'insert' and len(n['args']) == 2:
+            oid = hirq.const_eval(f, n['args'][0])
+            v = hirq.short_def(n['args'][1].get('ctor_of') or n['args'][1].get('def') or '')
+            got[v] = oid
+    for k in sorted(set(got) | set(RFC_CONTROL_OIDS)):
+        ctx.add(R + '.oid-table', k, loc(init['body']), got.get(k) == RFC_CONTROL_OIDS.get(k), 'OID table: %s -> %s, RFCs: %s' % (k, got.get(k), RFC_CONTROL_OIDS.get(k)))
+
+
+
+def check_result_helpers(ctx, f, R='T4', only=None):
+    """success()/non_error()/equal() decided over the finite partition of result codes (shared with C17 W2)."""
+    # ------------------------------------------------------------------ T4 helpers over the finite partition of result codes
+    HELPERS = {
+        'ldap3::result::LdapResult::success': {0: 'Ok'},
+        'ldap3::result::LdapResult::non_error': {0: 'Ok', 10: 'Ok'},
+        'ldap3::result::SearchResult::success': {0: 'Ok'},
+        'ldap3::result::SearchResult::non_error': {0: 'Ok', 10: 'Ok'},
+        'ldap3::result::ExopResult::success': {0: 'Ok'},
+        'ldap3::result::ExopResult::non_error': {0: 'Ok', 10: 'Ok'},
+        'ldap3::result::CompareResult::equal': {5: 'Ok(false)', 6: 'Ok(true)'},
+        'ldap3::result::CompareResult::non_error': {5: 'Ok', 6: 'Ok', 10: 'Ok'},
+    }
+    consts = set()
+    for p in HELPERS:
+        for n, c in walk(f.body(p)['body']):
+            if n['k'] == 'Lit' and isinstance(n.get('v'), int) and not isinstance(n.get('v'), bool):
+                consts.add(n['v'])
+            if n['k'] == 'Match':
+                for a in n['arms']:
+                    for v in (hirq.pat_lits(a['pat']) or []):
+                        consts.add(v)
+            # named constants, in expression or pattern position
+            for d in [n.get('def')] + ([x['e'].get('def') for x in ([n['pat']] + n['pat'].get('pats', [])) if x.get('k') == 'PExpr'] if n.get('k') == 'LetExpr' else []):
+                if d and str(n.get('defkind') or 'Const').startswith(('Const', 'AssocConst')) or (d and n.get('k') == 'LetExpr'):
+                    v = hirq.const_eval(f, {'k': 'Path', 'res': 'def', 'defkind': 'Const', 'def': d})
+                    if isinstance(v, int) and not isinstance(v, bool):
+                        consts.add(v)
+    partition = sorted(consts | {c + d for c in consts for d in (-1, 1) if c + d >= 0} | {0, 1, 2, 3, 4, 5, 6, 7, 10, 11, 80, 88, 255, 4294967295})
+    for p, table in HELPERS.items():
+        if only is not None and p not in only:
+            continue
+        Bh = hirq.Body(f, f.body(p))
+        ctx.analysed['bodies'].add(p)
+        # rc must only be compared (==, !=, match literal): then the partition is exact
+        bad_use = []
+        for n, c in walk(Bh.root):
+            if n['k'] == 'Field' and n['name'] == 'rc':
+                anc, role = c[-1]
+                if not ((anc['k'] == 'Binary' and anc['op'] in ('Eq', 'Ne', 'Lt', 'Le', 'Gt', 'Ge')) or (anc['k'] == 'Match' and role == 'scrut')
+                        or (anc['k'] == 'LetExpr' and role == 'init')):
+                    bad_use.append(anc['k'] + ':' + str(anc.get('op')))
+        ctx.add(R + '.comparison-only', p, loc(Bh.root), not bad_use, 'the result code is used other than in ==/match comparisons (%s): the finite partition is not exact' % bad_use)
+        wrong = []
+        for rc in partition:
+            outs = absx.Interp(f, Bh, field_hook=lambda base, name, st, rc=rc: ('lit', rc) if name == 'rc' else None,
+                               inline=lambda cal: cal in HELPERS and cal != p).run()      # a helper may delegate to a sibling helper
+            rs = set()
+            for o in outs:
+                v = o.val
+                if v[0] == 'ctor' and v[1] == 'Ok':
+                    inner = v[2][0]
+                    rs.add('Ok(%s)' % str(inner[1]).lower() if inner[0] == 'lit' and isinstance(inner[1], bool) else 'Ok')
+                elif v[0] == 'ctor' and v[1] == 'Err':
+                    rs.add('Err')
+                else:
+                    rs.add('?')
+            exp = table.get(rc, 'Err')
+            if rs != {exp}:
+                wrong.append((rc, sorted(rs), exp))
+        ctx.add(R + '.helper', p, loc(Bh.root), not wrong, 'result-code classes decided wrongly (rc, got, documented): %s' % wrong[:6])
+
+
 def run(ctx):
     f = ctx.facts
     # ------------------------------------------------------------------ T1
@@ -179,123 +310,8 @@ def run(ctx):
     ctx.add('T2.operation-returns-result', 'extended', loc(B2.root), ok, 'Ldap::extended must return ExopResult(exop = .1, result = .0) of op_call\'s result')
     ctx.floor('T2', 'operation result obligations', n_ops, 8)
 
-    # ------------------------------------------------------------------ T3 parse_controls
-    P = hirq.Body(f, f.body('ldap3::controls_impl::parse_controls'))
-    ctx.analysed['bodies'].add(P.path)
-    pouts = absx.Interp(f, P, unroll=1).run()
-    seen = set()
-    for o in pouts:
-        pushes = [e for e in o.st.ev if e[0] == 'call' and e[1].endswith('Vec::<T, A>::push')]
-        if not pushes:
-            continue
-        ctl = pushes[0][2][1]
-        if not (ctl[0] == 'ctor' and ctl[1].endswith('Control') and len(ctl[2]) == 2 and ctl[2][1][0] == 'struct'):
-            ctx.fail('T3.control-shape', 'push', loc(P.root), 'pushed value is not Control(type, RawControl{..})'); continue
-        known, raw = ctl[2]
-        rf = dict(raw[2])
-        ctype, crit, val = rf.get('ctype'), rf.get('crit'), rf.get('val')
-        def inner(t):
-            """ordinals read from the per-control component cursor (whose base is itself an element of the control list)"""
-            return sorted({x[3] for x in absx.leaves(t, lambda x: x[0] == 'nth') if absx.leaves(x[1], lambda y: y[0] in ('nth', 'elem'))})
-        okt = inner(ctype) == [0] and 'from_utf8' in calls_in(ctype) and 'expect_primitive' in calls_in(ctype)
-        def second_pc(pred):
-            return any(t and pred(a) for a, t in o.st.pc)
-        absent = absx.pc_variant(o.st.pc, lambda v: v[0] == 'nth' and v[3] == 1 and inner(v) == [1], 'None') is True
-        def id_is(a, n, name):
-            return a[0] == 'bin' and a[1] == 'Eq' and a[2][0] == 'field' and a[2][2] == 'id' and inner(a[2]) == [1] \
-                and (a[3] == ('lit', n) or a[3] == ('cast', ('ctor', 'Types::' + name, ()), 'u64'))
-        is_bool = second_pc(lambda a: id_is(a, 1, 'Boolean'))
-        is_octet = second_pc(lambda a: id_is(a, 4, 'OctetString'))
-        if absent:
-            case = 'absent'
-            ok = crit == ('lit', False) and val == ('ctor', 'None', ())
-        elif is_bool:
-            idx = absx.leaves(crit, lambda x: x[0] == 'index')
-            okc = crit[0] == 'not' and len(idx) == 1 and idx[0][2] == ('lit', 0) and inner(idx[0][1]) == [1] and crit[1] == ('bin', 'Eq', idx[0], ('lit', 0))
-            if val == ('ctor', 'None', ()):
-                case = 'boolean'
-                ok = okc and absx.pc_variant(o.st.pc, lambda v: v[0] == 'nth' and v[3] == 2, 'None') is True
-            else:
-                case = 'boolean+value'
-                ok = okc and val[0] == 'ctor' and val[1] == 'Some' and inner(val) == [2] and 'expect_primitive' in calls_in(val)
-        elif is_octet:
-            case = 'octet-string'
-            ok = crit == ('lit', False) and val[0] == 'ctor' and val[1] == 'Some' and inner(val) == [1] and 'expect_primitive' in calls_in(val)
-        else:
-            continue
-        seen.add(case)
-        ctx.add('T3.control-type', case, loc(P.root), okt, 'controlType is not the UTF-8 content of child 0')
-        ctx.add('T3.criticality-and-value', case, loc(P.root), ok, 'case %s: crit=%s val=%s' % (case, absx.fmt(crit)[:80], absx.fmt(val)[:80]))
-        gets = [x for x in absx.leaves(known, lambda x: x[0] == 'call' and x[1].endswith('HashMap::<K, V, S, A>::get'))]
-        okk = known[0] == 'call' and len(gets) == 1 and gets[0][2][1] == ctype and 'CONTROLS' in str(gets[0][2][0])
-        ctx.add('T3.known-type-lookup', case, loc(P.root), okk, 'the recognised control type is not looked up in the OID table with this control\'s own type')
-    for need in ('absent', 'boolean', 'boolean+value', 'octet-string'):
-        ctx.add('T3.coverage', need, loc(P.root), need in seen, 'no path of parse_controls for a second component that is ' + need)
-    # the OID table
-    init = [h for p, h in f.hir.items() if p.startswith('<ldap3::controls_impl::CONTROLS as core::ops::deref::Deref>::deref::__static_ref_initialize')]
-    init = anchors.one('CONTROLS initialiser', init)
-    got = {}
-    for n, c in walk(init['body']):
-        if n['k'] == 'MethodCall' and n['name'] == 'insert' and len(n['args']) == 2:
-            oid = hirq.const_eval(f, n['args'][0])
-            v = hirq.short_def(n['args'][1].get('ctor_of') or n['args'][1].get('def') or '')
-            got[v] = oid
-    for k in sorted(set(got) | set(RFC_CONTROL_OIDS)):
-        ctx.add('T3.oid-table', k, loc(init['body']), got.get(k) == RFC_CONTROL_OIDS.get(k), 'OID table: %s -> %s, RFCs: %s' % (k, got.get(k), RFC_CONTROL_OIDS.get(k)))
+    check_parse_controls(ctx, f, 'T3')
+    from props import C07
+    C07.check_parse_uint(ctx, f, 'T1')      # the result code (and the message ID) are read with this
 
-    # ------------------------------------------------------------------ T4 helpers over the finite partition of result codes
-    HELPERS = {
-        'ldap3::result::LdapResult::success': {0: 'Ok'},
-        'ldap3::result::LdapResult::non_error': {0: 'Ok', 10: 'Ok'},
-        'ldap3::result::SearchResult::success': {0: 'Ok'},
-        'ldap3::result::SearchResult::non_error': {0: 'Ok', 10: 'Ok'},
-        'ldap3::result::ExopResult::success': {0: 'Ok'},
-        'ldap3::result::ExopResult::non_error': {0: 'Ok', 10: 'Ok'},
-        'ldap3::result::CompareResult::equal': {5: 'Ok(false)', 6: 'Ok(true)'},
-        'ldap3::result::CompareResult::non_error': {5: 'Ok', 6: 'Ok', 10: 'Ok'},
-    }
-    consts = set()
-    for p in HELPERS:
-        for n, c in walk(f.body(p)['body']):
-            if n['k'] == 'Lit' and isinstance(n.get('v'), int) and not isinstance(n.get('v'), bool):
-                consts.add(n['v'])
-            if n['k'] == 'Match':
-                for a in n['arms']:
-                    for v in (hirq.pat_lits(a['pat']) or []):
-                        consts.add(v)
-            # named constants, in expression or pattern position
-            for d in [n.get('def')] + ([x['e'].get('def') for x in ([n['pat']] + n['pat'].get('pats', [])) if x.get('k') == 'PExpr'] if n.get('k') == 'LetExpr' else []):
-                if d and str(n.get('defkind') or 'Const').startswith(('Const', 'AssocConst')) or (d and n.get('k') == 'LetExpr'):
-                    v = hirq.const_eval(f, {'k': 'Path', 'res': 'def', 'defkind': 'Const', 'def': d})
-                    if isinstance(v, int) and not isinstance(v, bool):
-                        consts.add(v)
-    partition = sorted(consts | {c + d for c in consts for d in (-1, 1) if c + d >= 0} | {0, 1, 2, 3, 4, 5, 6, 7, 10, 11, 80, 88, 255, 4294967295})
-    for p, table in HELPERS.items():
-        Bh = hirq.Body(f, f.body(p))
-        ctx.analysed['bodies'].add(p)
-        # rc must only be compared (==, !=, match literal): then the partition is exact
-        bad_use = []
-        for n, c in walk(Bh.root):
-            if n['k'] == 'Field' and n['name'] == 'rc':
-                anc, role = c[-1]
-                if not ((anc['k'] == 'Binary' and anc['op'] in ('Eq', 'Ne', 'Lt', 'Le', 'Gt', 'Ge')) or (anc['k'] == 'Match' and role == 'scrut')
-                        or (anc['k'] == 'LetExpr' and role == 'init')):
-                    bad_use.append(anc['k'] + ':' + str(anc.get('op')))
-        ctx.add('T4.comparison-only', p, loc(Bh.root), not bad_use, 'the result code is used other than in ==/match comparisons (%s): the finite partition is not exact' % bad_use)
-        wrong = []
-        for rc in partition:
-            outs = absx.Interp(f, Bh, field_hook=lambda base, name, st, rc=rc: ('lit', rc) if name == 'rc' else None).run()
-            rs = set()
-            for o in outs:
-                v = o.val
-                if v[0] == 'ctor' and v[1] == 'Ok':
-                    inner = v[2][0]
-                    rs.add('Ok(%s)' % str(inner[1]).lower() if inner[0] == 'lit' and isinstance(inner[1], bool) else 'Ok')
-                elif v[0] == 'ctor' and v[1] == 'Err':
-                    rs.add('Err')
-                else:
-                    rs.add('?')
-            exp = table.get(rc, 'Err')
-            if rs != {exp}:
-                wrong.append((rc, sorted(rs), exp))
-        ctx.add('T4.helper', p, loc(Bh.root), not wrong, 'result-code classes decided wrongly (rc, got, documented): %s' % wrong[:6])
+    check_result_helpers(ctx, f, 'T4')
